@@ -169,6 +169,12 @@ pub fn start_watchdog(limit_s: u64) {
     });
 }
 
+/// Long cases that are long by design (bounded-exhaustive enumerations) report progress so
+/// that the per-case watchdog only fires on a call that really does not return.
+pub fn touch() {
+    CASE_STARTED.store(now_s(), std::sync::atomic::Ordering::Relaxed);
+}
+
 pub struct InFlight {
     f: Option<std::fs::File>,
 }
@@ -371,4 +377,34 @@ pub fn ddmin<T: Clone>(mut items: Vec<T>, fails: &mut dyn FnMut(&[T]) -> bool, b
             chunk = chunk.div_ceil(2);
         }
     }
+}
+
+
+/// Byte-level (libFuzzer) layer for ANY engine: the input bytes are the random stream of
+/// proptest's pass-through RNG, so the engine's own strategy turns them into a case
+/// (every byte string decodes; zeros after the end). Returns the failure and the case.
+pub fn run_bytes<E: Engine>(e: &E, tier: Tier, data: &[u8]) -> Option<(Failure, Value)> {
+    // rand's uniform sampling rejects forever on an all-zero stream, which is what the
+    // pass-through RNG delivers once the input is used up: append a long pseudo-random tail
+    // derived from the input (splitmix64 of an FNV hash), so that the stream never runs dry
+    let mut stream = data.to_vec();
+    let mut x: u64 = 0xcbf2_9ce4_8422_2325;
+    for b in data {
+        x = (x ^ u64::from(*b)).wrapping_mul(0x0000_0100_0000_01b3);
+    }
+    for _ in 0..8192 {
+        x = x.wrapping_add(0x9e37_79b9_7f4a_7c15);
+        let mut z = x;
+        z = (z ^ (z >> 30)).wrapping_mul(0xbf58_476d_1ce4_e5b9);
+        z = (z ^ (z >> 27)).wrapping_mul(0x94d0_49bb_1331_11eb);
+        stream.extend_from_slice(&(z ^ (z >> 31)).to_le_bytes());
+    }
+    let mut runner = TestRunner::new_with_rng(
+        Config { failure_persistence: None, ..Config::default() },
+        TestRng::from_seed(RngAlgorithm::PassThrough, &stream),
+    );
+    let tree = e.strategy(tier).new_tree(&mut runner).ok()?;
+    let case = tree.current();
+    let cr = e.run(&case);
+    cr.failure.map(|f| (f, serde_json::to_value(&case).unwrap_or(Value::Null)))
 }
